@@ -705,6 +705,83 @@ def transfer_scaling(repo, out):
     _c08.who(repo, _Only(out, 'Group._transfer'))
 
 
+# --------------------------------------------------------------------------- solution / rhs vector selection
+SOLVEC_FILES = ['openmdao/solvers/linear/linear_block_gs.py', 'openmdao/solvers/linear/linear_block_jac.py',
+                'openmdao/solvers/linear/direct.py', 'openmdao/solvers/linear/scipy_iter_solver.py',
+                'openmdao/solvers/linear/user_defined.py', 'openmdao/solvers/solver.py']
+_LINV = {'_doutputs': '_dresiduals', '_dresiduals': '_doutputs'}
+
+
+def _own_linvec(e):
+    """The `_doutputs`/`_dresiduals` attribute nodes of the solver's OWN system inside expression e."""
+    res = []
+    for n in astx.walk(e):
+        if isinstance(n, ast.Attribute) and n.attr in _LINV:
+            b = astx.path(n.value) or ''
+            if b in ('system', 'self._system()', 'self._system') or (isinstance(n.value, ast.Call) and
+                                                                      astx.call_name(n.value) == 'self._system'):
+                res.append(n)
+    return res
+
+
+def _swap_dump(e):
+    c = pathx._cp(e)
+    for n in ast.walk(c):
+        if isinstance(n, ast.Attribute) and n.attr in _LINV:
+            n.attr = _LINV[n.attr]
+    return astx.dump(c)
+
+
+@rule('C02.solvec', floor=6)
+def solvec(repo, out):
+    """A linear solver names its solution / right-hand-side vector by a fwd/rev switch with swapped roles.
+
+    In fwd mode the unknowns are d_outputs and the right-hand side d_residuals; in rev mode the roles swap.
+    Every binding of a local or attribute to the solver's own `_doutputs`/`_dresiduals` must therefore sit in
+    one arm of a mode test whose other arm binds the same target to the other vector."""
+    n = 0
+    for rel in SOLVEC_FILES:
+        if not repo.exists(rel):
+            continue
+        m = repo.module(rel)
+        for f in m.funcs.values():
+            mifs = mode_ifs(f)
+            binds = [st for st in astx.walk_stmts(f.node.body)
+                     if isinstance(st, ast.Assign) and len(st.targets) == 1 and
+                     isinstance(st.targets[0], (ast.Name, ast.Attribute)) and _own_linvec(st.value)]
+            # role variables: targets that some mode test binds (a name that is bound to one vector in both
+            # modes everywhere is a plain alias of that vector, e.g. d_outputs = system._doutputs)
+            roles = {astx.dump(st.targets[0]) for st in binds
+                     if any(any(x is st for x in arm) for _i, fw, rv in mifs for arm in (fw, rv))}
+            for st in binds:
+                if astx.dump(st.targets[0]) not in roles:
+                    continue
+                n += 1
+                arm = None
+                for ifst, fwd, rev in mifs:
+                    for mine, other in ((fwd, rev), (rev, fwd)):
+                        if any(x is st for x in mine):
+                            arm = (ifst, other)
+                if arm is None:
+                    out.bad(f, st, f'{astx.src(st.targets[0])} is bound to {astx.src(st.value)} in both derivative modes: '
+                            'the solution and right-hand-side vectors swap between fwd and rev, so one of the two '
+                            'modes works on the wrong vector', key='solvec-unconditional')
+                    continue
+                tgt = astx.dump(st.targets[0])
+                mirror = [x for x in arm[1] if isinstance(x, ast.Assign) and len(x.targets) == 1 and
+                          astx.dump(x.targets[0]) == tgt]
+                if not mirror:
+                    out.bad(f, st, f'the other mode does not bind {astx.src(st.targets[0])}', key='solvec-mirror')
+                elif astx.dump(mirror[0].value) != _swap_dump(st.value):
+                    out.bad(f, st, f'{astx.src(st.targets[0])} is {astx.src(st.value)} here and '
+                            f'{astx.src(mirror[0].value)} in the other mode: the two must be the same expression with '
+                            '_doutputs and _dresiduals exchanged', key='solvec-mirror')
+                else:
+                    out.ok(f, st, 'mode-selected with swapped roles')
+    if n < 6:
+        raise AnalysisError('vector selections of the linear solvers not found')
+
+
 # --------------------------------------------------------------------------- rev-mode solution cache
 RHSC = 'openmdao/solvers/linear/linear_rhs_checker.py'
 
@@ -771,9 +848,18 @@ def rhscache(repo, out):
     unp = [st for st in astx.walk_stmts(get.node.body) if isinstance(st, ast.Assign)
            and isinstance(st.targets[0], ast.Tuple) and len(st.targets[0].elts) == 3
            and astx.mentions(st.value, '_caches')]
-    if len(unp) != 1:
+    utgt = unp[0].targets[0] if len(unp) == 1 else None
+    if utgt is None:
+        # `for rhs, sol, norm in reversed(self._caches):` / `in self._caches`
+        loops = [st for st in astx.walk_stmts(get.node.body) if isinstance(st, ast.For)
+                 and isinstance(st.target, ast.Tuple) and len(st.target.elts) == 3
+                 and astx.mentions(st.iter, '_caches')]
+        if len(loops) == 1:
+            unp, utgt = loops, loops[0].target
+    if utgt is None or not all(isinstance(e, ast.Name) for e in utgt.elts):
+        # indexing form: entry = self._caches[i]; entry[0], entry[1], entry[2]
         raise AnalysisError('get_solution: cache entry unpacking not recognised')
-    R, S, N = [e.id for e in unp[0].targets[0].elts]
+    R, S, N = [e.id for e in utgt.elts]
     rhs_p = [a.arg for a in get.node.args.args][1]
     out.ok(get, unp[0], f'entry read as ({R}, {S}, {N})')
 
@@ -798,6 +884,11 @@ def rhscache(repo, out):
         if isinstance(base, ast.Name) and base.id == S:
             # exact / negated hit: the comparison that guards it must carry the same sign on the cached rhs
             gdef = first_def(guard.test.id) if guard is not None else None
+            if isinstance(gdef, ast.Call) and astx.callee_attr(gdef) != 'allclose':
+                # the comparison may be passed through a helper (e.g. an all-ranks reduction): look inside
+                inner = [c for c in astx.calls(gdef) if astx.callee_attr(c) == 'allclose']
+                if len(inner) == 1:
+                    gdef = inner[0]
             if not (isinstance(gdef, ast.Call) and astx.callee_attr(gdef) == 'allclose' and len(gdef.args) >= 2):
                 out.unsure(get, st, 'guard of the cache hit is not an allclose(rhs, ±cached rhs) test')
                 continue
@@ -870,56 +961,86 @@ def rhscache(repo, out):
 
 
 # --------------------------------------------------------------------------- explicit solve_linear mirror
-@rule('C02.explicit_solve', floor=1)
+@rule('C02.explicit_solve', floor=2)
 def explicit_solve(repo, out):
-    """ExplicitComponent._solve_linear: the rev branch is the fwd branch with the two vectors exchanged."""
-    fn = repo.func('openmdao/core/explicitcomponent.py', 'ExplicitComponent._solve_linear')
-    mi = mode_ifs(fn)
-    if len(mi) != 1:
-        raise AnalysisError('ExplicitComponent._solve_linear: mode test not found')
-    st, fwd, rev = mi[0]
+    """Explicit-style _solve_linear (ExplicitComponent, and Group with approximated derivatives): what the
+    method does in rev mode is what it does in fwd mode with d_outputs and d_residuals exchanged."""
     swap = {'d_outputs': 'd_residuals', 'd_residuals': 'd_outputs'}
 
-    def skel(stmts, ren):
+    def spec(stmts, fwd, env, ren):
+        """Skeleton of the statements executed in one mode: mode tests resolved, vector aliases
+        (`sol, rhs = d_outputs, d_residuals`) substituted, plain definitions dropped."""
         res = []
         for s_ in stmts:
             if isinstance(s_, ast.If):
+                mf = is_mode_fwd(s_.test)
+                if mf is not None:
+                    res += spec(s_.body if mf == fwd else s_.orelse, fwd, env, ren)
+                    continue
                 t = s_.test
                 atoms = t.values if isinstance(t, ast.BoolOp) else [t]
                 res.append(('if', type(t.op).__name__ if isinstance(t, ast.BoolOp) else '',
-                            tuple(sorted(astx.dump(a) for a in atoms)), tuple(skel(s_.body, ren)),
-                            tuple(skel(s_.orelse, ren))))
+                            tuple(sorted(astx.dump(x) for x in atoms)), tuple(spec(s_.body, fwd, dict(env), ren)),
+                            tuple(spec(s_.orelse, fwd, dict(env), ren))))
             elif isinstance(s_, ast.With):
                 listed = []
                 for it in s_.items:
                     c = it.context_expr
                     if isinstance(c, ast.Call) and astx.callee_attr(c) == '_unscaled_context':
                         for kw, pos in (('outputs', 0), ('residuals', 1)):
-                            a = astx.arg(c, pos, kw)
-                            listed.append((kw, tuple(sorted(astx.path(e) for e in a.elts)) if a is not None and
-                                           isinstance(a, (ast.List, ast.Tuple)) else None))
+                            a_ = astx.arg(c, pos, kw)
+                            listed.append((kw, tuple(sorted(env.get(astx.path(e), astx.path(e)) for e in a_.elts))
+                                           if a_ is not None and isinstance(a_, (ast.List, ast.Tuple)) else None))
                     else:
                         listed.append(('other', astx.dump(c)))
-                res.append(('with', tuple(sorted(listed)), tuple(skel(s_.body, ren))))
-            elif isinstance(s_, (ast.Pass,)):
+                res.append(('with', tuple(sorted(listed)), tuple(spec(s_.body, fwd, env, ren))))
+            elif isinstance(s_, ast.Pass):
                 continue
+            elif isinstance(s_, ast.Assign) and len(s_.targets) == 1:
+                tg, v = s_.targets[0], s_.value
+                pairs = list(zip(tg.elts, v.elts)) if isinstance(tg, ast.Tuple) and isinstance(v, ast.Tuple) and \
+                    len(tg.elts) == len(v.elts) else [(tg, v)]
+                if all(isinstance(x, ast.Name) and isinstance(y, ast.Name) for x, y in pairs):
+                    new_env = {x.id: env.get(y.id, y.id) for x, y in pairs}
+                    env.update(new_env)
+                    continue
+                if all(isinstance(x, ast.Name) and astx.path(y) and (astx.path(y) or '').startswith('self.')
+                       for x, y in pairs):
+                    continue        # definitions such as d_outputs = self._doutputs
+                res.append(('stmt', dumpr(s_, env, ren)))
             else:
-                c = pathx._cp(s_)
-                if ren:
-                    for n in ast.walk(c):
-                        if isinstance(n, ast.Name) and n.id in swap:
-                            n.id = swap[n.id]
-                res.append(('stmt', astx.dump(c)))
+                res.append(('stmt', dumpr(s_, env, ren)))
         return res
-    a, b = skel(fwd, False), skel(rev, True)
-    if a == b:
-        out.ok(fn, st, 'rev branch = fwd branch with d_outputs and d_residuals exchanged (same guards, same contexts)')
-    else:
-        diff = next((i for i, (x, y) in enumerate(zip(a, b)) if x != y), min(len(a), len(b)))
-        where = (rev[diff] if diff < len(rev) else st)
-        out.bad(fn, where, 'the rev branch is not the fwd branch with d_outputs and d_residuals exchanged: the '
-                'guards, the unscaled contexts or the operations differ, so the two are not adjoint for every '
-                'scaling', key='explicit-solve-mirror')
+
+    def dumpr(node, env, ren):
+        c = pathx._cp(node)
+        for n in ast.walk(c):
+            if isinstance(n, ast.Name):
+                n.id = env.get(n.id, n.id)
+                if ren and n.id in swap:
+                    n.id = swap[n.id]
+        return astx.dump(c)
+    for rel, qn in (('openmdao/core/explicitcomponent.py', 'ExplicitComponent._solve_linear'),
+                    ('openmdao/core/group.py', 'Group._solve_linear')):
+        fn = repo.func(rel, qn)
+        if not any(is_mode_fwd(x.test) is not None for x in astx.walk_stmts(fn.node.body) if isinstance(x, ast.If)) \
+                and not any(isinstance(x, ast.IfExp) and is_mode_fwd(x.test) is not None for x in astx.walk(fn.node)):
+            raise AnalysisError(f'{qn}: no mode test found')
+        body = astx.strip_doc(fn.node.body)
+        a = spec(body, True, {}, False)
+        b = spec(body, False, {}, True)
+        if not any('set_vec' in str(x) for x in a):
+            out.unsure(fn, fn.node, 'the explicit solve (set_vec) was not found in the fwd specialisation')
+        elif a == b:
+            out.ok(fn, fn.node, 'rev = fwd with d_outputs and d_residuals exchanged (same guards, same contexts)')
+        else:
+            diff = next((i for i, (x, y) in enumerate(zip(a, b)) if x != y), min(len(a), len(b)))
+            mi = mode_ifs(fn)
+            where = mi[0][0] if mi else fn.node
+            out.bad(fn, where, 'what _solve_linear does in rev mode is not what it does in fwd mode with d_outputs and '
+                    f'd_residuals exchanged (first difference at step {diff + 1} of the specialised bodies: the '
+                    'guards, the unscaled contexts or the operations differ), so the two are not adjoint for every '
+                    'scaling', key='explicit-solve-mirror')
 
 
 # --------------------------------------------------------------------------- cached vjp functions
@@ -1101,47 +1222,87 @@ def _assume_mode(fwd):
 
 
 # --------------------------------------------------------------------------- mask cache
+def _single_aliases(fn):
+    """{local: value expr} for locals bound exactly once in fn by a plain `name = expr`."""
+    cnt, val = {}, {}
+    for n in astx.walk(fn.node):
+        if isinstance(n, ast.Name) and isinstance(n.ctx, (ast.Store, ast.Del)):
+            cnt[n.id] = cnt.get(n.id, 0) + 1
+            par = getattr(n, '_parent', None)
+            if isinstance(par, ast.Assign) and len(par.targets) == 1 and par.targets[0] is n:
+                val[n.id] = par.value
+    return {k: v for k, v in val.items() if cnt.get(k) == 1}
+
+
+def _expand(e, al, depth=0):
+    """Copy of expression e with single-assignment locals replaced by their values (not through calls)."""
+    if depth > 4:
+        return e
+    env = {k: v for k, v in al.items() if not any(isinstance(x, ast.Call) for x in astx.walk(v))}
+    out = pathx._Sub(env).visit(pathx._cp(e))
+    if astx.dump(out) != astx.dump(e):
+        return _expand(out, al, depth + 1)
+    return out
+
+
 @rule('C02.maskcache', floor=1)
 def maskcache(repo, out):
     """The cached input-scope mask is keyed by everything it is computed from (scope and mode)."""
     fn = repo.func('openmdao/jacobians/jacobian.py', 'SplitJacobian._get_mask')
     params = {a.arg for a in fn.node.args.args if a.arg != 'self'}
+    al = _single_aliases(fn)
     n = 0
     for st in astx.walk_stmts(fn.node.body):
-        if not isinstance(st, ast.Try):
+        if not isinstance(st, ast.Try) or not st.handlers:
             continue
-        # try: v = cache[K]   except KeyError: v = E ; cache[K2] = v
-        look = [s for s in st.body if isinstance(s, ast.Assign) and isinstance(s.value, ast.Subscript)]
-        if not look or not st.handlers:
+        # try: v = cache[K] | return cache[K]   except KeyError: v = E ; cache[K2] = v
+        look = None
+        for s_ in st.body:
+            v = s_.value if isinstance(s_, (ast.Assign, ast.Return)) else None
+            if isinstance(v, ast.Subscript):
+                look = (s_, v)
+                break
+        if look is None:
             continue
-        key = look[0].value.slice
-        cache = astx.path(look[0].value.value)
-        tgt = astx.path(look[0].targets[0])
-        comp = [s for h in st.handlers for s in h.body if isinstance(s, ast.Assign) and astx.path(s.targets[0]) == tgt]
-        store = [s for h in st.handlers for s in h.body if isinstance(s, ast.Assign)
-                 and isinstance(s.targets[0], ast.Subscript) and astx.path(s.targets[0].value) == cache]
-        if not comp or not store:
+        lst, lsub = look
+        key = _expand(lsub.slice, al)
+        cache = astx.path(_expand(lsub.value, al))
+        if not (cache or '').startswith('self.'):
+            continue
+        store = [s_ for h in st.handlers for s_ in h.body if isinstance(s_, ast.Assign)
+                 and isinstance(s_.targets[0], ast.Subscript)
+                 and astx.path(_expand(s_.targets[0].value, al)) == cache]
+        if not store:
+            out.unsure(fn, st, 'cache miss branch does not store into the cache')
+            continue
+        stored = store[0].value
+        comp = None
+        if isinstance(stored, ast.Name):
+            cs = [s_ for h in st.handlers for s_ in h.body if isinstance(s_, ast.Assign)
+                  and astx.path(s_.targets[0]) == stored.id]
+            comp = cs[0].value if cs else None
+        elif isinstance(stored, ast.Call):
+            comp = stored
+        if comp is None:
             out.unsure(fn, st, 'cache miss branch not in the `v = E; cache[K] = v` form')
             continue
         n += 1
-        used = {x for x in astx.names(comp[0].value) if x in params}
+        used = {x for x in astx.names(comp) if x in params}
         in_key = {x for x in astx.names(key) if x in params}
-        if not astx.same(key, store[0].targets[0].slice):
+        skey = _expand(store[0].targets[0].slice, al)
+        if not astx.same(key, skey):
             out.bad(fn, store[0], f'mask is looked up under {astx.src(key)} but stored under '
-                    f'{astx.src(store[0].targets[0].slice)}', key='maskcache-key-mismatch')
+                    f'{astx.src(skey)}', key='maskcache-key-mismatch')
         elif not used <= in_key:
-            out.bad(fn, look[0], f'cached mask is computed from {sorted(used)} but the cache key {astx.src(key)} '
+            out.bad(fn, lst, f'cached mask is computed from {sorted(used)} but the cache key {astx.src(key)} '
                     f'only depends on {sorted(in_key)}: a mask computed for one matvec scope is reused for another '
                     '(fwd applies J.Mask, rev Mask.J^T with a stale Mask: not adjoint to each other)',
                     key='maskcache-key')
-        elif 'mode' in params and 'mode' not in in_key and False:
-            pass
         else:
-            # the key must identify the scope, not the vector object identity alone
-            out.ok(fn, look[0], f'key {astx.src(key)} covers {sorted(used)}')
+            out.ok(fn, lst, f'key {astx.src(key)} covers {sorted(used)}')
     if n == 0:
         # no cache at all is fine (mask recomputed every time)
-        rets = [s for s in astx.walk_stmts(fn.node.body) if isinstance(s, ast.Return)]
+        rets = [s_ for s_ in astx.walk_stmts(fn.node.body) if isinstance(s_, ast.Return)]
         if rets and all(isinstance(r.value, ast.Call) and astx.callee_attr(r.value) == 'get_mask' for r in rets):
             out.ok(fn, rets[0], 'mask recomputed on every call (no cache)')
         else:
@@ -1333,6 +1494,31 @@ selftest(
          "inhash = (inputs.get_hash(), outputs.get_hash()) + tuple(self._discrete_inputs.values())",
          "inhash = tuple(self._discrete_inputs.values()) + (outputs.get_hash(), inputs.get_hash())"),
     Mutant('transfer-scaling-rev-unpaired', 'openmdao/core/group.py', "                if xfer._has_input_scaling:\n                    vec_inputs.scale_to_phys(mode='rev')\n", "", 'C02.transfer_scaling'),
+    Twin('twin-maskcache-key-temp-alias', _JAC, "        try:\n            mask = self._mask_caches[(d_inputs._names, mode)]\n        except KeyError:\n            mask = d_inputs.get_mask()\n            self._mask_caches[(d_inputs._names, mode)] = mask\n\n        return mask",
+         "        cache_key = (d_inputs._names, mode)\n        caches = self._mask_caches\n        try:\n            return caches[cache_key]\n        except KeyError:\n            mask = d_inputs.get_mask()\n            caches[cache_key] = mask\n\n        return mask"),
+    Mutant('maskcache-key-temp-mode-only', _JAC, "        try:\n            mask = self._mask_caches[(d_inputs._names, mode)]\n        except KeyError:\n            mask = d_inputs.get_mask()\n            self._mask_caches[(d_inputs._names, mode)] = mask\n\n        return mask",
+           "        cache_key = mode\n        caches = self._mask_caches\n        try:\n            return caches[cache_key]\n        except KeyError:\n            mask = d_inputs.get_mask()\n            caches[cache_key] = mask\n\n        return mask", 'C02.maskcache'),
+    Twin('twin-rhscache-reversed-loop', RHSC, "        for i in range(len(self._caches) - 1, -1, -1):\n            rhs_cache, sol_cache, rhs_cache_norm = self._caches[i]\n",
+         "        for rhs_cache, sol_cache, rhs_cache_norm in reversed(self._caches):\n"),
+    Mutant('rhscache-reversed-loop-swapped', RHSC, "        for i in range(len(self._caches) - 1, -1, -1):\n            rhs_cache, sol_cache, rhs_cache_norm = self._caches[i]\n",
+           "        for sol_cache, rhs_cache, rhs_cache_norm in reversed(self._caches):\n", 'C02.rhscache'),
+    Mutant('solvec-lbgs-aitken-unconditional', 'openmdao/solvers/linear/linear_block_gs.py',
+           "            if self._mode == 'fwd':\n                d_out_vec = system._doutputs\n            else:\n                d_out_vec = system._dresiduals\n\n            d_n = d_out_vec.asarray(copy=True)",
+           "            d_out_vec = system._doutputs\n\n            d_n = d_out_vec.asarray(copy=True)", 'C02.solvec'),
+    Mutant('solvec-lbgs-init-same-vector', 'openmdao/solvers/linear/linear_block_gs.py',
+           "                self._delta_d_n_1 = self._system()._dresiduals.asarray(copy=True)", "                self._delta_d_n_1 = self._system()._doutputs.asarray(copy=True)", 'C02.solvec'),
+    Twin('twin-solvec-mode-ne', 'openmdao/solvers/linear/linear_block_gs.py',
+         "            if self._mode == 'fwd':\n                d_out_vec = system._doutputs\n            else:\n                d_out_vec = system._dresiduals\n\n            d_n = d_out_vec.asarray(copy=True)",
+         "            if self._mode != 'fwd':\n                d_out_vec = system._dresiduals\n            else:\n                d_out_vec = system._doutputs\n\n            d_n = d_out_vec.asarray(copy=True)"),
+    Mutant('explicit-solve-group-rev-direction', 'openmdao/core/group.py',
+           "                    with self._unscaled_context(outputs=[d_outputs], residuals=[d_residuals]):\n                        d_residuals.set_vec(d_outputs)",
+           "                    with self._unscaled_context(outputs=[d_outputs], residuals=[d_residuals]):\n                        d_outputs.set_vec(d_residuals)", 'C02.explicit_solve'),
+    Twin('twin-explicit-solve-role-variables', 'openmdao/core/explicitcomponent.py',
+         "        if mode == 'fwd':\n            if self._has_resid_scaling or self._has_output_scaling:\n                with self._unscaled_context(outputs=[d_outputs], residuals=[d_residuals]):\n                    d_outputs.set_vec(d_residuals)\n            else:\n                d_outputs.set_vec(d_residuals)\n\n            # ExplicitComponent jacobian defined with -1 on diagonal.\n            d_outputs *= -1.0\n\n        else:  # rev\n            if self._has_resid_scaling or self._has_output_scaling:\n                with self._unscaled_context(outputs=[d_outputs], residuals=[d_residuals]):\n                    d_residuals.set_vec(d_outputs)\n            else:\n                d_residuals.set_vec(d_outputs)\n\n            # ExplicitComponent jacobian defined with -1 on diagonal.\n            d_residuals *= -1.0\n",
+         "        if mode == 'fwd':\n            solution, rhs = d_outputs, d_residuals\n        else:\n            solution, rhs = d_residuals, d_outputs\n\n        if self._has_resid_scaling or self._has_output_scaling:\n            with self._unscaled_context(outputs=[d_outputs], residuals=[d_residuals]):\n                solution.set_vec(rhs)\n        else:\n            solution.set_vec(rhs)\n\n        solution *= -1.0\n"),
+    Mutant('explicit-solve-role-variables-same', 'openmdao/core/explicitcomponent.py',
+           "        if mode == 'fwd':\n            if self._has_resid_scaling or self._has_output_scaling:\n                with self._unscaled_context(outputs=[d_outputs], residuals=[d_residuals]):\n                    d_outputs.set_vec(d_residuals)\n            else:\n                d_outputs.set_vec(d_residuals)\n\n            # ExplicitComponent jacobian defined with -1 on diagonal.\n            d_outputs *= -1.0\n\n        else:  # rev\n            if self._has_resid_scaling or self._has_output_scaling:\n                with self._unscaled_context(outputs=[d_outputs], residuals=[d_residuals]):\n                    d_residuals.set_vec(d_outputs)\n            else:\n                d_residuals.set_vec(d_outputs)\n\n            # ExplicitComponent jacobian defined with -1 on diagonal.\n            d_residuals *= -1.0\n",
+           "        if mode == 'fwd':\n            solution, rhs = d_outputs, d_residuals\n        else:\n            solution, rhs = d_outputs, d_residuals\n\n        if self._has_resid_scaling or self._has_output_scaling:\n            with self._unscaled_context(outputs=[d_outputs], residuals=[d_residuals]):\n                solution.set_vec(rhs)\n        else:\n            solution.set_vec(rhs)\n\n        solution *= -1.0\n", 'C02.explicit_solve'),
     Twin('twin-transfer-early-return', _DT,
          "        if mode == 'fwd':\n            # this works whether the vecs have multi columns or not due to broadcasting\n            in_vec.set_val(out_vec.asarray()[self._out_inds.flat], self._in_inds)\n\n        else:  # rev\n            out_vec.iadd(np.bincount(self._out_inds, in_vec._get_data()[self._in_inds],\n                                     minlength=out_vec._data.size))",
          "        if mode != 'fwd':\n            w = in_vec._get_data()[self._in_inds]\n            g = np.bincount(self._out_inds, weights=w, minlength=out_vec._data.size)\n            out_vec.iadd(g)\n            return\n        vals = out_vec.asarray()[self._out_inds.flat]\n        in_vec.set_val(vals, self._in_inds)"),
